@@ -366,35 +366,86 @@ func checkC03(c *Ctx, r *Report) {
 
 	// ---- R4
 	for _, f := range c.FuncsNamed(headersPkg + ".ParseHeaderDirective") {
-		// the time.Parse call whose success store goes to hd.Expires.value
+		// every pass through the `case "Expires"` arm defines hd.Expires.value, and one of the
+		// stored values is the parsed date (directly, or through a same-package parsing helper)
 		var okStore, failStore bool
-		eachInstr(f, func(in ssa.Instruction) {
+		isExpStore := func(in ssa.Instruction) bool {
 			st, ok := in.(*ssa.Store)
 			if !ok {
-				return
+				return false
 			}
 			_, p := fieldPath(st.Addr)
-			if len(p) < 2 || p[len(p)-2] != "Expires" || p[len(p)-1] != "value" {
+			return len(p) >= 2 && p[len(p)-2] == "Expires" && p[len(p)-1] == "value"
+		}
+		isTimeParse := func(v ssa.Value) bool {
+			call, ok := v.(*ssa.Call)
+			if !ok {
+				return false
+			}
+			if calleeName(call) == "time.Parse" {
+				return true
+			}
+			h := unwrapSynthetic(staticCallee(call))
+			if h == nil || h.Blocks == nil || originPkgPath(h) != headersPkg {
+				return false
+			}
+			found := false
+			eachInstr(h, func(i2 ssa.Instruction) {
+				if ret, ok := i2.(*ssa.Return); ok && !isRecoverReturn(ret) {
+					for _, rv := range retVals(ret) {
+						if derivesFrom(rv, func(w ssa.Value) bool {
+							c2, ok := w.(*ssa.Call)
+							return ok && calleeName(c2) == "time.Parse"
+						}) {
+							found = true
+						}
+					}
+				}
+			})
+			return found
+		}
+		var arm *ssa.BasicBlock
+		for _, blk := range f.Blocks {
+			iff, ok := blk.Instrs[len(blk.Instrs)-1].(*ssa.If)
+			if !ok {
+				continue
+			}
+			if bo, ok := iff.Cond.(*ssa.BinOp); ok && bo.Op == token.EQL {
+				if s1, ok := constString(bo.Y); ok && s1 == "Expires" {
+					arm = blk
+				} else if s2, ok := constString(bo.X); ok && s2 == "Expires" {
+					arm = blk
+				}
+			}
+		}
+		eachInstr(f, func(in ssa.Instruction) {
+			if !isExpStore(in) {
 				return
 			}
-			fs := factStrs(f, st)
-			for k := range fs {
-				if strings.HasPrefix(k, "Parse(") && strings.HasSuffix(k, "#1==nil=true") {
-					okStore = true
-				}
-				if strings.HasPrefix(k, "Parse(") && strings.HasSuffix(k, "#1==nil=false") {
-					failStore = true
-				}
-				if strings.HasPrefix(k, "Parse(") && strings.HasSuffix(k, "#1!=nil=true") {
-					failStore = true
-				}
-				if strings.HasPrefix(k, "Parse(") && strings.HasSuffix(k, "#1!=nil=false") {
-					okStore = true
-				}
+			if derivesFrom(in.(*ssa.Store).Val, isTimeParse) {
+				okStore = true
 			}
 		})
+		if arm != nil {
+			// leaving the arm = reaching a block that dominates the case test (the loop header) or a return
+			escaped := false
+			walkFrom(pos{arm.Succs[0], 0}, func(in ssa.Instruction) bool {
+				if isExpStore(in) {
+					return true
+				}
+				if in.Block() != arm && in.Block().Dominates(arm) {
+					escaped = true
+					return true
+				}
+				if _, isRet := in.(*ssa.Return); isRet {
+					escaped = true
+				}
+				return false
+			}, nil, nil)
+			failStore = !escaped
+		}
 		r.Check(okStore, "C03.R4", "parsed Expires is recorded", c.Pos(f.Pos()), "success edge stores the date", "no store of the parsed Expires date")
-		r.Check(failStore, "C03.R4", "unparseable Expires is recorded as expired, not absent", c.Pos(f.Pos()), "the failure edge of time.Parse also defines hd.Expires", "an unparseable Expires leaves the directive absent: the response gets the default lifetime instead of counting as already expired")
+		r.Check(failStore, "C03.R4", "unparseable Expires is recorded as expired, not absent", c.Pos(f.Pos()), "every path through the Expires arm stores hd.Expires.value", "an unparseable Expires leaves the directive absent: the response gets the default lifetime instead of counting as already expired")
 	}
 
 	// ---- R5
